@@ -392,8 +392,13 @@ func (vx *Vaxis) PostEvent(ev Event) {
 // block if the queue is full. This method should only be used from a different
 // goroutine than the main thread.
 func (vx *Vaxis) PostEventBlocking(ev Event) {
-	vx.queue <- ev
-	verifC10(vx, "postb.sent")
+	select {
+	case vx.queue <- ev:
+		verifC10(vx, "postb.sent")
+	case <-vx.chQuit:
+		// Close has completed: nobody is expected to receive events anymore
+		verifC10(vx, "postb.quit")
+	}
 }
 
 // SyncFunc queues a function to be called from the main thread. vaxis will call
